@@ -82,43 +82,65 @@ class Stats:
 
 # ----------------------------------------------------------------------------- generation (TLC)
 
-def gen_values(tier, wd, st):
-    quick = tier == "quick"
-    k = dict(LeafClasses=tla_set(["X", "N", "S"]), NameClasses=tla_set(["n", "q"]),
-             MaxNodes=5 if quick else 6, MaxDepth=3 if quick else 4, MaxAttrs=2, MaxItems=3,
-             TypedArity=4 if quick else 5, TypedSyms=3)
-    c = core.cfg(spec="Spec", constants=k, invariants=["TypeOK", "Completable", "EmitValue", "EmitStatic"])
-    r = core.run_tlc("Gen_Recon", c, os.path.join(wd, "gen_values"), workers=1, timeout=1500, xmx="6g")
+def _gen_run(tag, k, wd, st, invs, **kw):
+    c = core.cfg(spec="Spec", constants=k, invariants=invs)
+    r = core.run_tlc("Gen_Recon", c, os.path.join(wd, tag), workers=1, timeout=2400, xmx="8g", **kw)
     if not r.ok:
-        raise core.ToolError("Gen_Recon: %s %s\n%s" % (r.status, r.violated, r.counterexample[:2000]))
+        raise core.ToolError("Gen_Recon(%s): %s %s\n%s" % (tag, r.status, r.violated, r.counterexample[:2000]))
+    return r
+
+
+def gen_values(tier, wd, st):
+    """-> [(abstract value, number of pool rotations)], typed cases, number of simulated documents"""
+    quick = tier == "quick"
+    salts = 4 if quick else 6
+    invs = ["TypeOK", "Completable", "EmitValue"]
+    # attribute names that are not identifiers hit a known finding on the unchanged tree (and would hide anything
+    # else in the same value): they get their own, smaller, enumeration
+    k = dict(LeafClasses=tla_set(["X", "N", "S"]), NameClasses=tla_set(["n"]),
+             MaxNodes=5, MaxDepth=3, MaxAttrs=2, MaxItems=3, MinNodes=1, TypedArity=4 if quick else 5, TypedSyms=3)
+    r = _gen_run("gen_values", k, wd, st, invs + ["EmitStatic"])
     st.add("Gen_Recon", r)
-    values = r.tagged["VALUE"]
     typed = r.tagged["TYPED"]
-    # a second, finer run: all leaf classes separately at a smaller node bound
+    kq = dict(k, NameClasses=tla_set(["n", "q"]), MaxNodes=4, TypedArity=0)
+    rq = _gen_run("gen_values_q", kq, wd, st, invs)
+    st.add("Gen_Recon", rq)
+    out, seen = [], set()
+
+    def take(vs, n, stride=1):
+        j = 0
+        for v in vs:
+            key = core.canon(v)
+            if key in seen:
+                continue
+            seen.add(key)
+            j += 1
+            if j % stride == 0:
+                out.append((v, n))
+
+    take(r.tagged["VALUE"], salts)
+    take(rq.tagged["VALUE"], 2)
+    # all leaf classes separately at a smaller node bound
     k2 = dict(k, LeafClasses=tla_set(["X", "B", "I", "O", "F", "T", "Q", "D"] + ([] if quick else ["Z"])),
               MaxNodes=3 if quick else 4, TypedArity=0)
-    c2 = core.cfg(spec="Spec", constants=k2, invariants=["TypeOK", "Completable", "EmitValue"])
-    r2 = core.run_tlc("Gen_Recon", c2, os.path.join(wd, "gen_values_fine"), workers=1, timeout=1500)
-    if not r2.ok:
-        raise core.ToolError("Gen_Recon(fine): %s %s" % (r2.status, r2.violated))
+    r2 = _gen_run("gen_values_fine", k2, wd, st, invs)
     st.add("Gen_Recon", r2)
-    values += r2.tagged["VALUE"]
+    take(r2.tagged["VALUE"], salts)
+    if not quick:
+        # one more node, one more level: one rotation each
+        k4 = dict(k, MaxNodes=6, MaxDepth=4, TypedArity=0)
+        r4 = _gen_run("gen_values_6", k4, wd, st, invs)
+        st.add("Gen_Recon", r4)
+        take(r4.tagged["VALUE"], 1)
     # seeded simulation: large / deep documents (every finished document of every walk)
     k3 = dict(k, LeafClasses=tla_set(["X", "B", "I", "O", "F", "T", "Q", "D"]), MaxNodes=40 if quick else 120,
-              MaxDepth=8 if quick else 24, MaxAttrs=3, MaxItems=5, TypedArity=0)
-    c3 = core.cfg(spec="Spec", constants=k3, invariants=["TypeOK", "EmitValue"])
-    r3 = core.run_tlc("Gen_Recon", c3, os.path.join(wd, "gen_values_sim"), workers=1, timeout=900,
-                      simulate="num=%d" % (300 if quick else 4000),
-                      extra=["-depth", "400", "-seed", str(core.seed())], coverage=False)
+              MaxDepth=8 if quick else 24, MaxAttrs=3, MaxItems=5, MinNodes=12 if quick else 30, TypedArity=0)
+    r3 = _gen_run("gen_values_sim", k3, wd, st, ["TypeOK", "EmitValue"], simulate="num=%d" % (300 if quick else 4000),
+                  extra=["-depth", "400", "-seed", str(core.seed())], coverage=False)
     st.add("Gen_Recon(simulate)", r3, count=False)
-    seen = set()
-    out = []
-    for v in values + r3.tagged["VALUE"]:
-        key = core.canon(v)
-        if key not in seen:
-            seen.add(key)
-            out.append(v)
-    return out, typed, len(r3.tagged["VALUE"])
+    n0 = len(out)
+    take(r3.tagged["VALUE"], 2)
+    return out, typed, len(out) - n0
 
 
 def gen_texts(tier, wd, st):
@@ -185,16 +207,20 @@ def chunk_plans(wd, st, lens, tier, plans):
     lens = sorted(l for l in lens if l > 8)
     if not lens:
         return plans
-    k = dict(Lens=tla_set(lens), Blanks=tla_set([0]), Kinds=tla_set(["closed"]), Tok=3, MaxCuts=1,
-             HdrCuts=R("{}"), Trail=9, Modes=tla_set(["free", "bytewise"]), EagerInit=False)
-    c = core.cfg(spec="Spec", constants=k, invariants=CHUNK_INVS)
-    r = core.run_tlc("MC_ReconChunk", c, os.path.join(wd, "chunk_single"), workers=1, timeout=1500, xmx="6g", coverage=False)
-    if not r.ok:
-        raise core.ToolError("ReconChunk(single): %s %s" % (r.status, r.violated))
-    st.add("ReconChunk", r)
-    for p in r.tagged["PLAN"]:
-        plans[p["l"]].add((p["hdr"], tuple(p["cuts"])))
-    k2 = dict(k, MaxCuts=6, HdrCuts=tla_set([1, 7]), Modes=tla_set(["free"]), Kinds=tla_set(["closed", "open"]))
+    base = dict(Blanks=tla_set([0]), Kinds=tla_set(["closed"]), Tok=3, MaxCuts=1, HdrCuts=R("{}"), Trail=9, EagerInit=False)
+    for tag, ls, modes in (("chunk_single", [l for l in lens if l <= 400], ["free", "bytewise"]),
+                           ("chunk_single_long", [l for l in lens if l > 400], ["free"])):
+        if not ls:
+            continue
+        k = dict(base, Lens=tla_set(ls), Modes=tla_set(modes))
+        c = core.cfg(spec="Spec", constants=k, invariants=CHUNK_INVS)
+        r = core.run_tlc("MC_ReconChunk", c, os.path.join(wd, tag), workers=1, timeout=1500, xmx="6g", coverage=False)
+        if not r.ok:
+            raise core.ToolError("ReconChunk(%s): %s %s" % (tag, r.status, r.violated))
+        st.add("ReconChunk", r)
+        for p in r.tagged["PLAN"]:
+            plans[p["l"]].add((p["hdr"], tuple(p["cuts"])))
+    k2 = dict(base, Lens=tla_set(lens), MaxCuts=6, HdrCuts=tla_set([1, 7]), Modes=tla_set(["free"]), Kinds=tla_set(["closed", "open"]))
     c2 = core.cfg(spec="Spec", constants=k2, invariants=CHUNK_INVS)
     n = min(20000, len(lens) * (12 if tier == "quick" else 60))
     r2 = core.run_tlc("MC_ReconChunk", c2, os.path.join(wd, "chunk_multi"), workers=1, timeout=900,
@@ -259,7 +285,7 @@ def lean(row):
     if "chunk" in row:
         o["chunk"] = []
         for c in row["chunk"]:
-            q = {k: c[k] for k in ("one", "rd0", "wl0", "wl0_left", "rd", "wl", "wl_left_bad") if k in c}
+            q = {k: c[k] for k in ("one", "rd0", "wl0", "wl0_left", "rd", "wl", "wl_left_bad", "binary") if k in c}
             if "doc" in c:
                 q["doc"], q["doc0"] = c["doc"], c["doc0"]
             if "sample" in c:
@@ -268,20 +294,32 @@ def lean(row):
     return o
 
 
+LAW_BATCH = 120000
+
+
 def evaluate_laws(rows, wd, st, tag="laws"):
-    d = os.path.join(wd, tag)
-    os.makedirs(d, exist_ok=True)
-    table = os.path.join(d, "table.ndjson")
-    core.write_ndjson(table, [lean(r) for r in rows])
-    c = core.cfg(spec="LawSpec", postcondition="LawsEvaluated")
-    r = core.run_tlc("MC_Recon", c, d, workers=1, timeout=3000, env={"TABLE": table}, xmx="8g", depth_first=True)
-    if not r.ok or not r.tagged.get("LAW_RESULT"):
-        raise core.ToolError("MC_Recon did not evaluate the table: %s\n%s" % (r.status, r.stdout[-2000:]))
-    st.add("MC_Recon", r)
-    res = r.tagged["LAW_RESULT"][-1]
-    if res["rows"] != len(rows):
-        raise core.ToolError("MC_Recon evaluated %s of %s rows" % (res["rows"], len(rows)))
-    return res
+    """TLC (MC_Recon) over the observation table, in batches that fit its heap."""
+    total = {"rows": 0, "broken": [], "exercised": None, "laws": None}
+    for b in range(0, max(1, len(rows)), LAW_BATCH):
+        part = rows[b:b + LAW_BATCH]
+        d = os.path.join(wd, "%s%d" % (tag, b // LAW_BATCH))
+        os.makedirs(d, exist_ok=True)
+        table = os.path.join(d, "table.ndjson")
+        core.write_ndjson(table, [lean(r) for r in part])
+        c = core.cfg(spec="LawSpec", postcondition="LawsEvaluated")
+        r = core.run_tlc("MC_Recon", c, d, workers=1, timeout=3000, env={"TABLE": table}, xmx="8g", depth_first=True)
+        if not r.ok or not r.tagged.get("LAW_RESULT"):
+            raise core.ToolError("MC_Recon did not evaluate the table: %s\n%s" % (r.status, r.stdout[-2000:]))
+        st.add("MC_Recon", r)
+        res = r.tagged["LAW_RESULT"][-1]
+        if res["rows"] != len(part):
+            raise core.ToolError("MC_Recon evaluated %s of %s rows" % (res["rows"], len(part)))
+        total["rows"] += res["rows"]
+        total["broken"] += res["broken"]
+        total["laws"] = res["laws"]
+        total["exercised"] = res["exercised"] if total["exercised"] is None else [x + y for x, y in zip(total["exercised"], res["exercised"])]
+        os.remove(table)
+    return total
 
 
 # ----------------------------------------------------------------------------- triage
@@ -300,6 +338,8 @@ def signatures_of(row, law, case):
         if law == "CallsLaw":
             return None
         for c in row["chunk"]:
+            if c.get("binary"):
+                continue
             dec_bad = (c["rd0"] != c["one"] or c["wl0"] != c["one"] or c["wl0_left"] != 9 or c["wl_left_bad"] != 0
                        or any(x != c["one"] for x in c["rd"]) or any(x != c["one"] for x in c["wl"]))
             doc_bad = "doc" in c and any(x != c["doc0"] for x in c["doc"])
@@ -344,7 +384,10 @@ def describe(row, law):
     if law in ("RoundTrip", "FixedPoint"):
         for p in row.get("pr", []):
             if p["back"] != row.get("vid") and law == "RoundTrip":
-                return "%s printer: %s -> %s parses to %s%s" % (p["p"], row.get("canon", row.get("dbg", row.get("vid"))), json.dumps(p.get("text"))[:200],
+                src = row.get("canon", row.get("dbg", row.get("vid")))
+                if row.get("k") == "text":
+                    src = "parse(%s) = %s" % (json.dumps(row.get("text", (row.get("input") or {}).get("text")))[:120], src)
+                return "%s printer: %s -> %s parses to %s%s" % (p["p"], src, json.dumps(p.get("text"))[:200],
                                                                 p.get("norm", p.get("got", p["back"])), (" (" + p["err"] + ")") if "err" in p else "")
             if law == "FixedPoint":
                 if p["back"] == "err":
@@ -391,12 +434,11 @@ def triage(out, rows, cases, law_result):
 
 def build_cases(tier, values, typed, texts, rng):
     quick = tier == "quick"
-    salts = 3 if quick else 6
+    salts = 4 if quick else 6
     cases = []
-    for i, v in enumerate(values):
-        big = v.get("t") == "chain" or i >= 0 and False
-        for s in range(salts):
-            cases.append({"id": "v%d.%d" % (i, s), "k": "value", "v": v, "salt": s * 7 + i % 5})
+    for i, (v, ns) in enumerate(values):
+        for s in range(ns):
+            cases.append({"id": "v%d.%d" % (i, s), "k": "value", "v": v, "salt": s * 7 + i % 5 + (i if ns == 1 else 0)})
     for i, t in enumerate(typed):
         for s in range(salts + 1):
             cases.append({"id": "t%d.%d" % (i, s), "k": "typed", "ty": t["ty"], "syms": t["syms"], "salt": s})
@@ -404,7 +446,7 @@ def build_cases(tier, values, typed, texts, rng):
     small_muts = [m for m in muts if m["m"] not in ("rep", "wrap")]
     grow_muts = [m for m in muts if m["m"] in ("rep", "wrap")]
     for i, t in enumerate(texts["accepted"] + texts["simulated"]):
-        for s in range(2 if quick else 4):
+        for s in range(2):
             cases.append({"id": "x%d.%d" % (i, s), "k": "toks", "toks": t["toks"], "salt": s * 5 + i % 7, "style": (i + s) % 3,
                           "pred": t["verdict"]})
         # one mutated twin per accepted sequence (operator chosen by seed from the model's operator set)
@@ -414,10 +456,11 @@ def build_cases(tier, values, typed, texts, rng):
             g = grow_muts[(i // 8) % len(grow_muts)]
             cases.append({"id": "g%d" % i, "k": "toks", "toks": t["toks"], "salt": i % 13, "style": 1, "mut": [g]})
     rej = texts["rejected"]
-    if quick and len(rej) > 6000:
+    cap = 6000 if quick else 14000
+    if len(rej) > cap:
         keep = [t for t in rej if t["verdict"] in ("accept", "accept-eof")]
         rest = [t for t in rej if t["verdict"] not in ("accept", "accept-eof")]
-        rej = keep + rng.sample(rest, 6000 - len(keep))
+        rej = keep + rng.sample(rest, cap - len(keep))
     for i, t in enumerate(rej):
         cases.append({"id": "r%d" % i, "k": "toks", "toks": t["toks"], "salt": i % 17, "style": i % 3, "pred": t["verdict"]})
     return cases
@@ -454,7 +497,7 @@ def run(tier, out):
     core.log("[C09] pass A: %d cases through the real printers/parser in %.0fs" % (len(cases), time.time() - t1))
     # pass B: chunking for a selection of the cases, with the plans TLC enumerated for their lengths
     sel = []
-    stride_v = 2 if quick else 1
+    stride_v = 1 if quick else 2
     for idx, (c, r) in enumerate(zip(cases, rows)):
         if "panic" in r or "hang" in r:
             continue
@@ -464,7 +507,8 @@ def run(tier, out):
             continue
         if kind == "v":
             i, s = c["id"][1:].split(".")
-            if int(s) != int(i) % 3 or int(i) % stride_v:
+            ns = values[int(i)][1]
+            if int(s) != int(i) % ns or int(i) % stride_v:
                 continue
         elif kind == "t":
             if not c["id"].endswith(".0") and not c["id"].endswith(".1"):
@@ -473,16 +517,16 @@ def run(tier, out):
             if not c["id"].endswith(".0"):
                 continue
         elif kind in ("m", "r"):
-            if idx % (3 if quick else 1):
+            if idx % 3:
                 continue
-        if n > (400 if quick else 5000):
+        if n > (400 if quick else 4200):
             continue
         sel.append((idx, n))
     lens = sorted({n for _, n in sel})
     # cap the number of distinct long lengths (each costs ~L plans)
     long_l = [l for l in lens if l > 120]
-    if len(long_l) > (12 if quick else 60):
-        keep = set(rng.sample(long_l, 12 if quick else 60))
+    if len(long_l) > (12 if quick else 30):
+        keep = set(rng.sample(long_l, 12 if quick else 30))
         sel = [(i, n) for (i, n) in sel if n <= 120 or n in keep]
         lens = sorted({n for _, n in sel})
     t2 = time.time()
